@@ -305,12 +305,39 @@ func (u *Unit) tryInlineLitCallStmt(st *State, call *ast.CallExpr, c *Ctl, k fun
 		}
 	}
 	if lit == nil {
+		// f(func(){...}) where f's contract says it runs its function arguments once and recovers their panics
+		// (threading.RunSafe, rescue-style helpers): the literal is executed inline in a frame that swallows a panic.
+		if callee, ok := typeutil.Callee(u.pkg.TypesInfo, call).(*types.Func); ok {
+			if cc := u.eng.cs.Funcs[calleeKey(callee)]; cc != nil && cc.Flags["runs_funcargs"] && len(call.Args) == 1 {
+				if fl, ok := ast.Unparen(call.Args[0]).(*ast.FuncLit); ok {
+					u.eng.noteTrusted(u, cc)
+					if cc.Flags["recovers"] {
+						u.execLitRecovering(st, fl, call.Pos(), k)
+					} else {
+						u.execLit(st, fl, nil, call.Pos(), func(s2 *State, _ []Value) { k(s2) })
+					}
+					return true
+				}
+			}
+		}
 		return false
 	}
 	sig, _ := u.pkg.TypesInfo.TypeOf(lit).(*types.Signature)
 	args := ev.evalArgs(call, sig)
 	u.execLit(st, lit, args, call.Pos(), func(s2 *State, vals []Value) { k(s2) })
 	return true
+}
+
+// execLitRecovering runs a literal inside a synthetic frame whose only deferred action recovers a panic.
+func (u *Unit) execLitRecovering(st *State, lit *ast.FuncLit, pos token.Pos, k func(*State)) {
+	outer := &Frame{isLit: true, fn: lit.Type, panicAtEntry: st.panicking}
+	outer.defers = append(outer.defers, Deferred{RecoverAll: true})
+	outer.retK = func(s2 *State, _ []Value) { k(s2) }
+	st.frames = append(st.frames, outer)
+	u.execLit(st, lit, nil, pos, func(s2 *State, _ []Value) {
+		// normal return of the literal: leave the synthetic frame too
+		u.runDefers(s2)
+	})
 }
 
 // execLit runs a function literal body inline with its own frame.
@@ -1389,6 +1416,14 @@ func (u *Unit) runDefers(st *State) {
 	}
 	d := fr.defers[len(fr.defers)-1]
 	fr.defers = fr.defers[:len(fr.defers)-1]
+	if d.RecoverAll {
+		if st.panicking {
+			st.panicking = false
+			st.recovered = true
+		}
+		u.runDefers(st)
+		return
+	}
 	if d.Lit != nil {
 		st.inDeferLit++
 		u.execLit(st, d.Lit, d.Args, d.Lit.Pos(), func(s2 *State, _ []Value) {
